@@ -122,10 +122,29 @@ type tkey struct {
 
 // TB is a term builder (one per path execution; not thread safe).
 type TB struct {
-	tab   map[tkey]*Term
-	n     int32
-	True  *Term
-	False *Term
+	tab    map[tkey]*Term
+	n      int32
+	True   *Term
+	False  *Term
+	marked bool
+	log    []tkey
+	markN  int32
+}
+
+// Mark starts recording additions so that Rollback can remove them.
+func (tb *TB) Mark() {
+	tb.marked = true
+	tb.log = tb.log[:0]
+	tb.markN = tb.n
+}
+
+// Rollback removes every term created since Mark.
+func (tb *TB) Rollback() {
+	for _, k := range tb.log {
+		delete(tb.tab, k)
+	}
+	tb.log = tb.log[:0]
+	tb.n = tb.markN
 }
 
 func NewTB() *TB {
@@ -162,6 +181,9 @@ func (tb *TB) mk(t *Term) *Term {
 	t.id = tb.n
 	tb.n++
 	tb.tab[k] = t
+	if tb.marked {
+		tb.log = append(tb.log, k)
+	}
 	return t
 }
 
